@@ -642,8 +642,8 @@ def gen_sequence(r, tier, plot_lane=False, malformed=False):
             xy = r.choice([("density", "mass"), ("position.x", "position.y"), ("mass", "temperature")])
             call = {"fn": "scatter", "x": xy[0], "y": xy[1], "opts": r.choice([2, 2, None]),
                     "color": r.choice([None, "r", "arr:mass", "arr:temperature"]),
-                    "size": r.choice([None, "3", "arr:dx" if xy[0].startswith("position") else "5"])}
-            if call["size"] == "arr:dx" and any(k == "marker" for k, _ in case["optdicts"][2]["kwargs"]):
+                    "size": r.choice([None, "3", r.choice(["arr:dx", "arr:radius"]) if xy[0].startswith("position") else "5"])}
+            if str(call["size"]).startswith("arr:") and any(k == "marker" for k, _ in case["optdicts"][2]["kwargs"]):
                 call["size"] = "3"      # sizes with a unit are drawn as a PatchCollection, which takes no marker
         else:
             xy = r.choice([("position.x", ["position.y"]), ("position.x", ["position.y", "position.z"]), ("density", ["mass"]), ("mass", [])])
@@ -683,7 +683,11 @@ def corpus():
     # histogram2d refuses {'x': 8} on its own (KeyError 'y'); after a map call that filled the dict it runs
     h = {"fn": "histogram2d", "x": "density", "y": "mass", "layers": [0], "opts": None, "res": "shared", "plot": False}
     c5 = dict(base, calls=[dict(h), dict(m, dz=None), dict(h)], tags=["witness", "hist2d_sees_filled_dict"])
-    return [json.loads(json.dumps(c)) for c in (c1, c2, c3, c4, c5)]
+    # marker sizes with a unit, some of them NaN / inf: drawn as patches; the caller's size Array reaches the renderer as
+    # it is (norm and to() of an Array in the unit of x return the object itself)
+    sc = {"fn": "scatter", "x": "position.x", "y": "position.y", "opts": None, "color": None, "size": "arr:radius"}
+    c6 = dict(base, calls=[dict(sc), dict(sc, color="arr:mass"), dict(sc, size="arr:dx")], tags=["witness", "scatter_nan_radii"])
+    return [json.loads(json.dumps(c)) for c in (c1, c2, c3, c4, c5, c6)]
 
 
 # --------------------------------------------------------------------------------------------
